@@ -213,6 +213,17 @@ def shrink(P, known, case, obs, failure):
     return case, obs, failure
 
 
+def proof_targets(P):
+    """PROOF_TARGETS of the property plus its NonVacuity.vo (examples applying every premise-carrying theorem to a
+    concrete instance) when the property is listed in coq/nonvacuity.list"""
+    t = list(P.PROOF_TARGETS)
+    lst = os.path.join(COQ, 'nonvacuity.list')
+    if os.path.exists(lst) and P.ID in open(lst).read().split() \
+            and os.path.exists(os.path.join(COQ, 'theories', P.ID, 'NonVacuity.v')):
+        t.append(f'theories/{P.ID}/NonVacuity.vo')
+    return t
+
+
 def build(P, log):
     """translator + make + explicit re-check of Properties.v.  Returns dict"""
     import translator
@@ -235,7 +246,7 @@ def build(P, log):
         if not ok:
             res['broken'].append('model does not build: ' + out[-1500:])
             log(out[-3000:])
-        ok2, out2 = coqrun.make(P.PROOF_TARGETS)
+        ok2, out2 = coqrun.make(proof_targets(P))
         if not ok2:
             res['broken'].append('proof obligations do not build: ' + out2[-1500:])
             log(out2[-3000:])
@@ -249,7 +260,7 @@ def build(P, log):
             cmd = ['timeout', '600', 'coqc', '-Q', 'theories', 'FV', '-w', 'none', props_v,
                    '-o', os.path.join(tmp, 'Properties.vo')]
             p = subprocess.run(cmd, cwd=COQ, stdout=subprocess.PIPE, stderr=subprocess.STDOUT, text=True)
-            res['checker_cmd'] = 'cd /verif/coq && make -j16 ' + ' '.join(P.PROOF_TARGETS) + ' && ' + \
+            res['checker_cmd'] = 'cd /verif/coq && make -j16 ' + ' '.join(proof_targets(P)) + ' && ' + \
                 ' '.join(cmd[2:8]) + ' ' + props_v
             import shutil
             shutil.rmtree(tmp, ignore_errors=True)
@@ -579,7 +590,7 @@ def setup():
                 if fails:
                     print(f'translator {g}: {fails}')
                     ok_all = False
-            targets += P.MODEL_TARGETS + P.PROOF_TARGETS
+            targets += P.MODEL_TARGETS + proof_targets(P)
         ok, out = coqrun.make(sorted(set(targets)), timeout=3000)
         print(out[-3000:])
     bad = gate_no_axioms(['Base', 'Gen'] + props)
